@@ -142,6 +142,13 @@ Definition limit_of (f : safeio_facts) (max : Z) : option Z :=
   if cmp_eval (fst (ram_guard f)) max (snd (ram_guard f))
   then Some (match ram_limarg f with LimMax => max | LimMaxPlus d => max + d | LimConst c => c end)
   else None.
+(* the remaining generated facts, which have no counterpart in the executable model: they must hold as such *)
+Definition safeio_facts_ok (f : safeio_facts) : bool :=
+  match ram_cap_rule f with CapMinReadIfNegative_ConstIfAbove_ElseMax c => (0 <? c) && (c <=? 1073741824) | _ => false end
+  && ram_else_unlimited f && ram_buf_wrapped f
+  && (fst (readall_args f) =? -1) && (snd (readall_args f) =? -1)
+  && copydata_is_iocopy f && cwriter_is_contextio f && cwriter_write_converts f && creader_is_contextio f && dce_converts f.
+
 (* an error is reported with its kind only if it went through ConvertIOError *)
 Definition converted (conv : bool) (k : kind) : kind := if conv then k else match k with KNil => KNil | _ => KOther end.
 
@@ -312,9 +319,10 @@ Definition chmod_entry (t : tree) : list bev :=
 (* ListDirTreeWithContextAndExclusionPatterns (files.go:1841-1873): check (:1842), Ls (:1851), per element:
    check (:1857), IsDir (:1864), recurse into directories *)
 Fixpoint listtree_tr (t : tree) : list bev :=
+  Chk :: opsn c_ls ++
   match t with
-  | F _ => []
-  | D cs => Chk :: opsn c_ls ++ flat_map (fun c => Chk :: opsn (c_isdir c) ++ listtree_tr c) cs
+  | F _ => []            (* not a directory: the listing fails *)
+  | D cs => flat_map (fun c => Chk :: opsn (c_isdir c) ++ (if is_dir c then listtree_tr c else [])) cs
   end.
 Definition listtree_entry (t : tree) : list bev := Chk :: listtree_tr t.
 
@@ -573,7 +581,14 @@ Definition agrees (c : case) (r : result) : bool :=
   && match r_wleft r with [] => true | _ => false end     (* every observed Write is explained *)
   && negb (r_starved r).                                  (* and the model needs no Read that was not issued *)
 
+Definition is_timeout (k : kind) : bool := match k with KTimeout => true | _ => false end.
+(* the kinds demanded by the harness for an ended context are those the generated rules produce *)
+Definition ctx_kinds_ok (c : case) : bool :=
+  kind_eqb (c_ck c) (mid_kind (is_timeout (c_ck c)))
+  && match c_pre c with Some k => kind_eqb k (kind_of_ctx (mkCtx (is_timeout k) None)) | None => true end.
+
 Definition check_case (c : case) : bool :=
+  ctx_kinds_ok c &&
   match c_op c with
   | OpReadAtMost max => agrees c (read_at_most (c_pre c) (c_ck c) max (c_src c) (c_rs c))
   | OpCopyData => agrees c (copy_data (c_rf c) (c_pre c) (c_ck c) (c_src c) (c_rs c) (c_ws c))
